@@ -6,8 +6,8 @@
 From Coq Require Import String List ZArith Reals QArith Qreals.
 From QV Require Import AutoQ.Limits AutoQ.Search AutoQ.Forgiving AutoQ.Size Link.LimitLink.
 From QVGen Require Import LimitGen.
-From QVGen Require SizeGen.
-From QV Require Link.SizeLink.
+From QVGen Require SizeGen RoleGen.
+From QV Require Link.SizeLink Link.RoleLink.
 Import ListNotations.
 Open Scope string_scope.
 
@@ -184,3 +184,22 @@ Theorem C20_code_fused_plain_activation_reference_width : forall w out,
   SizeGen.gen_act_size KQuantized (DFunc NSoftmax) (w_in w) (w_out w) (w_ref w) out = Some (w_out w * out)%Z.
 Proof. exact SizeLink.link_fused_plain_activation_reference_width. Qed.
 Print Assumptions C20_code_fused_plain_activation_reference_width.
+
+(* ---- the tensor-role dispatch of _get_quantizer as /repo has it now (coq/gen/RoleGen.v, regenerated on every run) ---- *)
+Theorem C20_role_translation_ok : RoleGen.role_translation_ok = true.
+Proof. exact RoleLink.link_role_ok. Qed.
+Theorem C20_source_role_dispatch_is_the_model : forall il role,
+  RoleGen.gen_field_of_role il role = (field_name (field_of_head il role), field_index (field_of_head il role)).
+Proof. exact RoleLink.link_field_of_role. Qed.
+Print Assumptions C20_source_role_dispatch_is_the_model.
+(* consequences for the heads quantize_model builds (name ++ "_" ++ role), about the regenerated code: kernels use slot 0, biases slot 1,
+   activations the last slot; pointwise and recurrent kernels resolve to the KERNEL field (the word "kernel" is tested first) *)
+Theorem C20_code_role_slots : forall n,
+  RoleGen.gen_field_of_role false (role_of n (n ++ "_kernel")) = ("kernel", 0%Z) /\
+  RoleGen.gen_field_of_role false (role_of n (n ++ "_bias")) = ("bias", 1%Z) /\
+  RoleGen.gen_field_of_role false (role_of n (n ++ "_activation")) = ("activation", (-1)%Z) /\
+  RoleGen.gen_field_of_role true (role_of n (n ++ "_activation")) = ("linear", 0%Z) /\
+  RoleGen.gen_field_of_role false (role_of n (n ++ "_pointwise_kernel")) = ("kernel", 0%Z) /\
+  RoleGen.gen_field_of_role false (role_of n (n ++ "_recurrent_kernel")) = ("kernel", 0%Z).
+Proof. intros n. rewrite !role_of_app. repeat split; reflexivity. Qed.
+Print Assumptions C20_code_role_slots.
